@@ -223,7 +223,7 @@ def run(ctx):
 
     def t(case):
         evaluate(ctx, case, 'random')
-    ctx.run_test(t, {'case': case_strategy(ctx.tier)}, max_examples=ctx.scale(400, 2200), name='random_histories')
+    ctx.run_test(t, {'case': case_strategy(ctx.tier)}, max_examples=ctx.scale(400, 1800), name='random_histories')
 
 
 def replay(case):
